@@ -192,7 +192,10 @@ def replay(case):
     if "src" in case:
         why = source_case(case)
     elif "real" in case:
-        why = real_case(case)
+        try:
+            why = common.with_timeout(real_case, 60, case)
+        except common.Hang:
+            why = "[hang] the run did not return"
     elif "sched" in case:
         o = runnerio.run_impl(case)
         why = oracle_gated(case, o, runnerio.impl_obs(case, o))
